@@ -27,7 +27,19 @@ def main():
                     if props:
                         bad += 1
                         print("FAILS %s under %s" % (fl["obligation"], ",".join(props)), flush=True)
-        print("%d units, %d problem(s)" % (len(units), bad))
+        import kani as kanimod
+        kunits = kanimod.all_units()
+        for u in kunits:
+            r = kanimod.run_unit(u, repo=repo, work=run.WORK)
+            if r["status"] == "undecided":
+                bad += 1
+                print("UNDECIDED %s: %s" % (u, r["reason"][:200]), flush=True)
+            for fl in r["failures"]:
+                props = [p for p in fl["props"] if not report.is_known(fl, p, known)]
+                if props:
+                    bad += 1
+                    print("FAILS %s under %s" % (fl["obligation"], ",".join(props)), flush=True)
+        print("%d units, %d problem(s)" % (len(units) + len(kunits), bad))
     finally:
         shutil.rmtree(d, ignore_errors=True)
     sys.exit(1 if bad else 0)
